@@ -62,17 +62,25 @@ class Lock:
 # ---------------------------------------------------------------------------------------------------- build steps
 
 def build_harness(prop):
+    """go build with an alternate go.mod (-modfile) whose replace directive points at REPO, tags verif,<cxx>"""
     tag = prop["id"].lower()
-    out = os.path.join(HARN, "bin", "vh_" + tag)
-    with Lock("go"):
-        shutil.copy(os.path.join(REPO, "go.sum"), os.path.join(HARN, "go.sum"))
-        rc, o, dt = run(["go", "build", "-tags", "verif," + tag, "-o", out, "./cmd/vh"], cwd=HARN, env=GOENV)
-        ext = None
-        if prop.get("gen"):
-            ext = os.path.join(HARN, "bin", "extract")
-            rc2, o2, dt2 = run(["go", "build", "-o", ext, "./cmd/extract"], cwd=HARN, env=GOENV)
-            if rc2 != 0:
-                return None, None, "extract build failed:\n" + o2
+    suffix = "" if REPO == "/repo" else "_" + hashlib.sha1(REPO.encode()).hexdigest()[:6]
+    out = os.path.join(HARN, "bin", "vh_" + tag + suffix)
+    wd = os.path.join(ROOT, ".work", "mod_" + tag)
+    os.makedirs(wd, exist_ok=True)
+    os.makedirs(os.path.join(HARN, "bin"), exist_ok=True)
+    gm = open(os.path.join(HARN, "go.mod")).read().replace("=> /repo", "=> " + REPO)
+    with open(os.path.join(wd, "go.mod"), "w") as f:
+        f.write(gm)
+    shutil.copy(os.path.join(REPO, "go.sum"), os.path.join(wd, "go.sum"))
+    modfile = "-modfile=" + os.path.join(wd, "go.mod")
+    rc, o, dt = run(["go", "build", modfile, "-tags", "verif," + tag, "-o", out, "./cmd/vh"], cwd=HARN, env=GOENV)
+    ext = None
+    if prop.get("gen"):
+        ext = os.path.join(HARN, "bin", "extract_" + tag + suffix)
+        rc2, o2, dt2 = run(["go", "build", modfile, "-o", ext, "./cmd/extract"], cwd=HARN, env=GOENV)
+        if rc2 != 0:
+            return None, None, "extract build failed:\n" + o2
     if rc != 0:
         return None, None, o
     return out, ext, None
@@ -174,6 +182,7 @@ def lake_and_audit(prop, genmods, tier):
     res["obligations"] = len(thms)
     res["theorems"] = [t[1] for t in thms]
     with Lock("lake"):
+        run([sys.executable, os.path.join(ROOT, "tools_gen_driver.py")])
         rc, o, dt = run(["lake", "build"] + pmods + genmods + ["tongo_model"], cwd=LEAN, timeout=3000)
         res["build_log"] = o[-6000:]
         res["build_s"] = round(dt, 1)
@@ -392,6 +401,7 @@ def main():
     if a.skip_lean:
         pr = dict(obligations=0, discharged=0, failed=[], axioms={}, forbidden=[], build_log="", theorems=[])
         with Lock("lake"):
+            run([sys.executable, os.path.join(ROOT, "tools_gen_driver.py")])
             run(["lake", "build", "tongo_model"], cwd=LEAN)
     else:
         pr = lake_and_audit(prop, genmods, a.tier)
